@@ -68,6 +68,15 @@ NAMES = ('FOO-MIB', 'Bar-Mib', 'baz')
 FILE_EXTS = ('.py', '.json', '', '.txt', '.PY', '.pyc')
 
 
+# what a pre-transformed file may hold: DOS / old-Mac line ends, non-ASCII text, no final line end
+SHAPES = (b'content of %s', b'# %s\r\nx = 1\r\n', b'# %s\rold mac\rline ends\r', b'{"name": "%s", "d": "caf\xc3\xa9 \xe4\xb8\xad"}\n',
+          b'%s\n\n\r\n\ttabs and  spaces  \n')
+
+
+def _content(fn, shape):
+    return SHAPES[shape] % fn.encode()
+
+
 @st.composite
 def dir_cases(draw):
     files = []
@@ -78,7 +87,7 @@ def dir_cases(draw):
                     files.append(variant + e)
     kind = draw(st.sampled_from(('py', 'any.json', 'any.multi')))
     return {'files': sorted(set(files)), 'kind': kind, 'ask': draw(st.sampled_from(NAMES)),
-            'genTexts': draw(st.booleans()), 'flavour': draw(st.booleans())}
+            'genTexts': draw(st.booleans()), 'flavour': draw(st.booleans()), 'shape': draw(st.integers(0, len(SHAPES) - 1))}
 
 
 def dir_prop(case, rec):
@@ -89,8 +98,8 @@ def dir_prop(case, rec):
     d = tempfile.mkdtemp(prefix='c19b')
     try:
         for fn in case['files']:
-            with open(os.path.join(d, fn), 'w') as fh:
-                fh.write('content of ' + fn)
+            with open(os.path.join(d, fn), 'wb') as fh:
+                fh.write(_content(fn, case.get('shape', 0)))
         listed = sorted(os.listdir(d))
         reader = FileReader(d).setOptions(lowcaseMatching=False)
         if case['kind'] == 'py':
@@ -141,8 +150,9 @@ def dir_prop(case, rec):
             if got not in allowed or got not in listed:
                 raise Violation('borrowed-unlisted-extension', 'asked %s with exts %r, got file %r (dir: %r)' % (
                     name, exts, got, listed), case)
-            if data != 'content of ' + got:
-                raise Violation('borrowed-content', '%r' % data, case)
+            if data != _content(got, case.get('shape', 0)).decode('utf-8', 'ignore'):
+                raise Violation('borrowed-content', 'the borrowed copy is not the stored file verbatim: %r vs %r' % (
+                    data, _content(got, case.get('shape', 0))), case)
             rec.count('dir.found')
         else:
             if any(c in listed for c in cands):
